@@ -223,6 +223,11 @@ func (h *History) externalFile(r Rng, rep *Report) {
 			parts[sr.PID] = append(parts[sr.PID], sr)
 		}
 	}
+	h.writeExternal(parts, func() bool { return r.Chance(0.5) }, rep)
+}
+
+// writeExternal writes the given rows (grouped by partition) as an external-writer file.
+func (h *History) writeExternal(parts map[string][]*StoredRow, withHash func() bool, rep *Report) {
 	var buf bytes.Buffer
 	meta := bs.FileMetadata{BloomFalsePositiveRate: 0.01}
 	pids := make([]string, 0, len(parts))
@@ -256,7 +261,7 @@ func (h *History) externalFile(r Rng, rep *Report) {
 		buf.Write(block.Bytes())
 		b := bs.DataBlockMetadata{RowDataOffset: start, RowDataSize: block.Len(), Rows: len(parts[pid]), PartitionID: pid, MinMaxIndexes: mm,
 			Compression: bs.CompressionNone, UncompressedSize: block.Len()}
-		if r.Chance(0.5) {
+		if withHash() {
 			b.RowDataHash = crc32.Checksum(block.Bytes(), crc32.MakeTable(crc32.Castagnoli))
 			b.HasRowDataHash = true
 		}
